@@ -54,7 +54,8 @@ CHECK_DEADLOCK TRUE
 """
 MODES = ("nodb", "db", "tpl")
 WATCHDOG = 30.0             # seconds per parse of a short text (normal: ~1 ms)
-PUMP_WATCHDOG = 200.0       # seconds per pumped parse (normal: < 1 s)
+PUMP_WATCHDOG = 200.0       # seconds per pumped parse (normal: < 1 s), in-process (Python-level loops)
+MIN_DEADLINE = 20.0         # hard parent-side deadline per pumped parse: max(this, 50 x median of the smaller n)
 MAX_HANGS = 2               # per worker job
 MAXNEST = 40
 DEGREE = 3
@@ -237,24 +238,33 @@ def pump_series(atoms, net, peak, idx):
     return out
 
 
-def _pump_worker(args):
-    job, lang, items, scratch = args
+def _pump_child(chunk, start_at, send):
+    """Runs in a supervised child (harness/wikitext.supervised): measures the series of the chunk one
+    by one.  Before every parse it announces a hard deadline — 50 x the median wall time of the
+    smaller n of the same series, at least MIN_DEADLINE seconds — which the PARENT enforces by
+    killing this process: a regular expression that backtracks inside C code makes no Python call
+    (invisible to the call counter) and cannot be interrupted by a signal handler."""
+    job, lang, scratch, series_list = chunk
     W.quiet()
-    db = W.build_wikidb(os.path.join(scratch, "pdb-%d" % job), lang)
+    path = os.path.join(scratch, "pdb-%d-%d" % (job, start_at))
+    db = W.build_wikidb(path, lang)
     counter = W.CallCounter()
-    results = []
-    hung = 0
-    for idx, atoms, net, peak in items:
-        if hung:
-            break                       # one hang per job is enough; do not wait for the watchdog again and again
-        for sname, mode, series in pump_series(atoms, net, peak, idx):
+    try:
+        for si in range(start_at, len(series_list)):
+            key, sname, mode, series = series_list[si]
             counts = []
+            walls = []
             verdict = None
             for n, text in series:
                 limit = None
                 if counts:
                     pn, pc = counts[-1]
                     limit = int(pc * (n / pn) ** DEGREE * MARGIN * 4) + 100000
+                deadline = MIN_DEADLINE
+                if walls:
+                    deadline = max(MIN_DEADLINE, 50 * sorted(walls)[len(walls) // 2])
+                send(("start", si, deadline, n))
+                t0 = time.time()
                 try:
                     with W.watchdog(PUMP_WATCHDOG):
                         c = counter.measure(lambda: W.parse(text, db if mode == "db" else None, lang), limit=limit)
@@ -264,35 +274,70 @@ def _pump_worker(args):
                     break
                 except W.Hang:
                     verdict = "no result within %ds at n=%d" % (PUMP_WATCHDOG, n)
-                    hung += 1
                     break
                 except Exception as e:                               # noqa: BLE001
                     verdict = "raises " + W.crash_key("parse_string", e)
                     break
+                walls.append(time.time() - t0)
                 counts.append((n, c))
             if verdict is None:
                 for (n1, c1), (n2, c2) in zip(counts, counts[1:]):
                     if c2 > c1 * (n2 / n1) ** DEGREE * MARGIN:
                         verdict = "calls grow faster than n^%d: %r" % (DEGREE, counts)
                         break
-            results.append((idx, atoms, sname, mode, counts, verdict))
-    import shutil
-    shutil.rmtree(os.path.join(scratch, "pdb-%d" % job), ignore_errors=True)
-    return results
+            send(("result", si, (counts, verdict), None))
+    finally:
+        import shutil
+        shutil.rmtree(path, ignore_errors=True)
 
 
-def pump_all(ctx, items, lang):
-    jobs = [(i, lang, ch, ctx.scratch) for i, ch in enumerate(chunks(items, ctx.ncpu * 4)) if ch]
+def zone_series(zones, units):
+    """Character-level pumping inside a zone: prefix + unit^n + suffix."""
     out = []
-    for r in W.pmap(ctx, _pump_worker, jobs):
-        out += r
+    for zi, z in enumerate(sorted(zones)):
+        for ui, u in enumerate(sorted(units)):
+            out.append((["zone", z, u], "zone %s unit %s" % (z, u), "db" if (zi + ui) % 2 else "nodb",
+                        [(n, W.zone_text(z, u, n)) for n in W.ZONE_SIZES]))
     return out
 
 
-def _growth_key(sname, atoms, verdict):
+def pump_all(ctx, series_list, lang):
+    """series_list: [(key, series name, mode, [(n, text)])] -> [(key, sname, mode, counts, verdict)]"""
+    if not series_list:
+        return []
+    W.quiet()
+    from mwlib.parser.refine import uparser  # noqa: F401  (imported before forking from threads)
+    from mwlib.core import wiki  # noqa: F401
+    from mwlib.network import fetch  # noqa: F401
+    parts = [ch for ch in chunks(series_list, ctx.ncpu * 3) if ch]
+    jobs = [(i, lang, ctx.scratch, ch) for i, ch in enumerate(parts)]
+    out = []
+    for cn, kind, idx, payload in W.supervised(ctx, _pump_child, jobs):
+        if kind == "skipped":
+            continue
+        key, sname, mode, series = parts[cn][idx]
+        if kind == "killed":
+            deadline, n = payload
+            out.append((key, sname, mode, [], "no result within the hard deadline of %.0f s at n=%s (>= 50 x the median of the "
+                        "smaller n of the series); the worker was killed from outside" % (deadline, n)))
+        else:
+            counts, verdict = payload
+            out.append((key, sname, mode, counts, verdict))
+    return out
+
+
+def _series_text(key):
+    if key[0] == "zone":
+        return W.zone_text(key[1], key[2], 3) + " ..."
+    return W.concretise(key[2])[:60]
+
+
+def _growth_key(key, sname, verdict):
     if verdict.startswith("raises "):
         return verdict[len("raises "):]          # crash key: entry point, exception class, innermost mwlib frame
-    return "growth %s atoms=%s" % (sname.split(" ")[0], json.dumps(atoms))
+    if key[0] == "zone":
+        return "growth zone=%s unit=%s" % (key[1], key[2])
+    return "growth %s atoms=%s" % (sname.split(" ")[0], json.dumps(key[2]))
 
 
 # ----------------------------------------------------------------------------- the check
@@ -421,32 +466,39 @@ def run(ctx):
     items = [(cid, c[0], c[1], c[2]) for cid, c in sorted(chosen.items())]
     rnd.shuffle(items)
     t2 = time.time()
+    W.check_zones(ctx, heads["full"]["zones"], heads["full"]["units"])
+    series_list = []
+    for idx, atoms, net, peak in items:
+        for sname, mode, series in pump_series(atoms, net, peak, idx):
+            series_list.append((["lex", idx, atoms, net, peak], sname, mode, series))
+    zs = zone_series(heads["full"]["zones"], heads["full"]["units"])
+    series_list += zs
+    random.Random(ctx.seed).shuffle(series_list)
     if hangs:
-        ctx.note("parses hang: the growth measurements are skipped (every pumped text would wait for its watchdog)")
-        items = []
-    pumped = pump_all(ctx, items, W.LANGS[ctx.seed % len(W.LANGS)])
-    ctx.note("growth: %d texts pumped in %.0fs" % (len(items), time.time() - t2))
+        ctx.note("parses hang: the growth measurements are skipped (every pumped text would wait for its deadline)")
+        series_list = []
+    pumped = pump_all(ctx, series_list, W.LANGS[ctx.seed % len(W.LANGS)])
+    ctx.note("growth: %d series (%d texts, %d zone x unit) measured in %.0fs" % (len(series_list), len(items), len(zs), time.time() - t2))
     nseries = nmeasured = 0
-    for idx, atoms, sname, mode, counts, verdict in pumped:
+    for key, sname, mode, counts, verdict in pumped:
         nseries += 1
         nmeasured += len(counts)
         if verdict:
-            robj = {"kind": "growth", "atoms": atoms, "series": sname, "mode": mode,
-                    "net": chosen[idx][1], "peak": chosen[idx][2], "idx": idx, "counts": counts}
-            ctx.violation(_growth_key(sname, atoms, verdict),
-                          "%s series of %r (%s): %s" % (sname, W.concretise(atoms)[:60], mode, verdict), robj)
+            what = "%s series of %r (%s): %s" % (sname, _series_text(key), mode, verdict)
+            ctx.violation(_growth_key(key, sname, verdict), what,
+                          {"kind": "growth", "key": key, "series": sname, "mode": mode, "counts": counts})
     ctx.set_cover(evaluations=nparse + nmeasured, distinct_nontrivial=len(structured), exhaustive=True,
                   texts=len(cases), texts_parsed=selected, parses=nparse, enumerated=sizes, languages=len(W.LANGS),
                   distinct_stage_traces=len(keys), raising_stage_traces=len(raise_keys),
                   traces_validated_against_impl=sum(t[0] for t in traces.values()),
                   states=mc_states + gen_states + tstates, transitions=mc_trans + ttrans,
-                  pumped_texts=len(items), pump_series=nseries, pump_measurements=nmeasured,
+                  pumped_texts=len(items), pump_series=nseries, zone_unit_series=len(zs), pump_measurements=nmeasured,
                   action_coverage=cov, nonvacuity={"AllowRaise": [nv.kind, nv.name]},
                   rule="every sequence WikiTokens.tla generates (%s; %d simulated of 10/30/60 lexemes over Markup; nesting "
                        "counter <= 40) is parsed with uparser.parse_string without a database, with the production "
                        "database and as a template body, for %s; each parse's stage trace is validated by TLC against "
                        "ParsePipeline.tla; distinct non-trivial = distinct texts whose tree (no database) contains a node "
-                       "other than Article/Paragraph/Node/Text; growth: %d texts pumped in %d series"
+                       "other than Article/Paragraph/Node/Text; growth: %d texts pumped in %d series incl. every zone x unit of WikiTokens.tla (n = 8..64)"
                        % (", ".join("%s: %d lexemes, %d sequences" % (k, v[0], v[1]) for k, v in sizes.items() if isinstance(v, list)),
                           nsim, "one rotating language per text (quick: all single lexemes, all Structural pairs, a rotating eighth of the other pairs)" if quick
                           else "all 12 bundled languages for texts with a language-sensitive lexeme, two rotating ones otherwise, one for 3-lexeme and long texts",
@@ -456,10 +508,12 @@ def run(ctx):
     if keys:
         k = max(keys, key=len)
         ctx.sample({"stage_trace": json.loads(k)[:60], "count": traces[k][0]})
-    for idx, atoms, sname, mode, counts, verdict in pumped[:2]:
-        ctx.sample({"pumped": W.concretise(atoms), "series": sname, "mode": mode, "calls": counts})
+    for key, sname, mode, counts, verdict in pumped[:3]:
+        ctx.sample({"pumped": _series_text(key), "series": sname, "mode": mode, "calls": counts})
     ctx.assume("the growth clause is empirical: deterministic call counts (sys.monitoring PY_START + CALL) of pumped "
-               "texts, bound n^3 x 1.5; wall time is never a verdict (watchdogs %ds / %ds only for hangs)" % (WATCHDOG, PUMP_WATCHDOG),
+               "texts, bound n^3 x 1.5; wall time is never a pass/fail threshold: it only arms the hang deadlines (in-process "
+               "%ds / %ds; parent-side kill of a pumped parse after max(%ds, 50 x the median of the smaller n of its series))"
+               % (WATCHDOG, PUMP_WATCHDOG, MIN_DEADLINE),
                "the nesting counter of WikiTokens.tla over-approximates the depth of the tree; texts above 40 are outside the quantifier",
                "template-body mode skips texts that cannot be stored in an archive (lone surrogates; the archive's page separator)",
                "wiki database = nuwiki.Adapt over an archive written by fetch.FsOutput with the bundled siteinfo of the language")
@@ -468,16 +522,21 @@ def run(ctx):
 def replay(ctx, path):
     with open(path) as f:
         rec = json.load(f)["replay"]
-    atoms = rec["atoms"]
-    lang = rec["lang"] if rec.get("lang") in W.LANGS else "en"
     if rec["kind"] == "growth":
-        res = _pump_worker((0, lang, [(rec["idx"], atoms, rec["net"], rec["peak"])], ctx.scratch))
-        bad = [x for x in res if x[5] and x[2] == rec["series"]]
-        for idx, atoms, sname, mode, counts, verdict in bad:
-            ctx.violation(_growth_key(sname, atoms, verdict), verdict, rec)
+        key = rec["key"]
+        if key[0] == "zone":
+            sl = [x for x in zone_series([key[1]], [key[2]])]
+        else:
+            sl = [(key, sname, mode, series) for sname, mode, series in pump_series(key[2], key[3], key[4], key[1])
+                  if sname == rec["series"]]
+        bad = [x for x in pump_all(ctx, sl, "en") if x[4]]
+        for key, sname, mode, counts, verdict in bad:
+            ctx.violation(_growth_key(key, sname, verdict), verdict, rec)
         if not bad:
             print("replay: the series now fits the bound")
         return
+    atoms = rec["atoms"]
+    lang = rec["lang"] if rec.get("lang") in W.LANGS else "en"
     mode = rec["mode"].split(" ")[0]
     traces, crashes, hangs, _, _ = _parse_worker((0, lang, [(0, atoms)], ctx.scratch, None))
     keys = sorted(traces)
